@@ -236,7 +236,9 @@ pub fn run(opts: &Opts) -> i32 {
     let all = all_strings(b"ab$/+#", val_len);
     rep.extra("validation_strings", json!(all.len()));
     let filters: Mutex<Vec<(String, TopicFilter)>> = Mutex::new(Vec::new());
-    let chunk = 4096usize;
+    // (under a sanitizer a fixed number of *chunks* is executed per shard: small chunks there)
+    let sanitized = std::env::var("VERIF_SANITIZER").is_ok();
+    let chunk = if sanitized { 16usize } else { 4096usize };
     let nchunks = all.len().div_ceil(chunk) as u64;
     pool::par_for(nchunks, None, |ci| {
         let lo = ci as usize * chunk;
@@ -347,9 +349,10 @@ pub fn run(opts: &Opts) -> i32 {
         "", "a", "b", "$", "$SYS", "$share", "é", "日本語", "a b", "sport", "tennis", "player1", "😀", "+", "#",
         "a+", "#b", "ab", "\u{7f}", "ÿ", "x".repeat(70).as_str().to_owned().leak(),
     ];
-    pool::par_for(n_rand.div_ceil(1000), None, |ci| {
+    let per_chunk: u64 = if sanitized { 12 } else { 1000 };
+    pool::par_for(n_rand.div_ceil(per_chunk), None, |ci| {
         let mut rng = Rng::for_case(opts.seed, "C18-rand", ci);
-        for _ in 0..1000 {
+        for _ in 0..per_chunk {
             let nl = 1 + rng.usize(5);
             let fs: Vec<&str> = (0..nl).map(|_| *rng.pick(&pool_levels)).collect();
             let fs = fs.join("/");
